@@ -26,50 +26,6 @@ NoCnt == [on |-> FALSE, lc |-> <<>>, rc |-> <<>>]
 ZeroL == [i \in 0..(WDict.nl - 1) |-> 0]
 ZeroR == [i \in 0..(WDict.nr - 1) |-> 0]
 
-(* ---------------- implementation-shaped lattice construction ---------------- *)
-(* insertion order inside one iteration: user lexicon, system lexicon, unknown words; ids ascending *)
-Rank(w) == (IF w.lt = 1 THEN 0 ELSE IF w.lt = 0 THEN 1 ELSE 2) * 100000 + w.id * 100 + w.e
-CandSeq(cs) == SetToSortSeq(cs, LAMBDA a, b : Rank(a) < Rank(b))
-
-(* search_min_node with `<=`: the last index among the cheapest *)
-LastMin(E, at, l) ==
-   LET cs == {<<i, E[at + 1][i].mc + Conn(WDict, E[at + 1][i].r, l)>> : i \in 1..Len(E[at + 1])}
-       m  == SetMin({x[2] : x \in cs})
-   IN <<SetMax({x[1] : x \in {x \in cs : x[2] = m}}) - 1, m>>
-
-RECURSIVE InsertAll(_, _, _, _, _)
-InsertAll(E, q, at, ws, i) ==
-   IF i > Len(ws) THEN E
-   ELSE LET w == ws[i]
-            m == LastMin(E, at, w.l)
-            n == [sn |-> at, sw |-> q, lt |-> w.lt, id |-> w.id, l |-> w.l, r |-> w.r, c |-> w.c,
-                  mi |-> m[1], mc |-> m[2] + w.c]
-        IN InsertAll(TLCEval([E EXCEPT ![w.e + 1] = Append(@, n)]), q, at, ws, i + 1)
-
-BosNode == [sn |-> -1, sw |-> -1, lt |-> 0, id |-> -1, l |-> 65535, r |-> 0, c |-> 0, mi |-> 65535, mc |-> 0]
-
-RECURSIVE DetScan(_, _, _, _)
-DetScan(s, T, sw, E) ==
-   LET N == Len(s) IN
-   IF sw >= N THEN [ends |-> E, at |-> N]
-   ELSE IF E[sw + 1] = <<>> THEN DetScan(s, T, sw + 1, E)
-   ELSE LET q == NextStart(WDict, WOpts, s, T, sw) IN
-        IF q = N THEN [ends |-> E, at |-> sw]
-        ELSE DetScan(s, T, q + 1, InsertAll(E, q, sw, CandSeq(CandsAt(WDict, WOpts, s, T, q)), 1))
-
-DetBuild(s) ==
-   LET N == Len(s)
-       T == STab(WDict, s, FALSE)
-       r == DetScan(s, T, 0, [b \in 1..(N + 1) |-> IF b = 1 THEN <<BosNode>> ELSE <<>>])
-       m == LastMin(r.ends, r.at, 0)
-   IN [len |-> N, ends |-> r.ends, eos |-> [sn |-> r.at, mi |-> m[1], mc |-> m[2]]]
-
-TokOfNode(n, e) == [b |-> n.sw, e |-> e, lt |-> n.lt, id |-> n.id, l |-> n.l, r |-> n.r, c |-> n.c, tot |-> n.mc]
-RECURSIVE TopOf(_, _, _)
-TopOf(L, at, mi) == IF at = 0 THEN <<>>
-                    ELSE LET n == L.ends[at + 1][mi + 1] IN Append(TopOf(L, n.sn, n.mi), TokOfNode(n, at))
-DetTokens(s) == IF Len(s) = 0 THEN <<>> ELSE LET L == DetBuild(s) IN TopOf(L, L.eos.sn, L.eos.mi)
-
 (* Lattice::add_connid_counts, shaped after the code *)
 CountLattice(L, c) ==
    IF L.len < 0 THEN c       \* never built: (the real code would panic; not modelled)
@@ -106,7 +62,7 @@ Tokenize(w) ==
       THEN /\ wtop' = (IF TokenizeAppends THEN wtop ELSE [wtop EXCEPT ![w] = <<>>])
            /\ wlat' = (IF StaleLattice THEN wlat
                        ELSE [wlat EXCEPT ![w] = [len |-> 0, ends |-> << <<BosNode>> >>, eos |-> NoLat.eos]])
-      ELSE LET L == DetBuild(s)
+      ELSE LET L == DetBuild(WDict, WOpts, s)
                t == TopOf(L, L.eos.sn, L.eos.mi)
            IN /\ wlat' = [wlat EXCEPT ![w] = L]
               /\ wtop' = [wtop EXCEPT ![w] = IF TokenizeAppends THEN @ \o t ELSE t]
@@ -136,7 +92,7 @@ WSpec == WInit /\ [][WNext]_wvars
 
 (* -------------------------------- properties -------------------------------- *)
 (* C04: the result is a function of (dictionary, options, sentence) alone *)
-Determinism == \A w \in Workers : wtk[w] => wtop[w] = DetTokens(wsent[w])
+Determinism == \A w \in Workers : wtk[w] => wtop[w] = DetTokens(WDict, WOpts, wsent[w])
 (* ... and it is a valid optimal segmentation in the sense of the declarative layer *)
 ResultValid == \A w \in Workers : wtk[w] /\ Len(wsent[w]) > 0 =>
    LET s == wsent[w]  T == STab(WDict, s, FALSE)  t == wtop[w] IN
